@@ -8,10 +8,16 @@ Prints every stable-pass test that did not pass; exit 0 iff there is none.  With
 compared.  The junit file is written to a temporary directory and removed."""
 import json
 import os
+import signal
 import subprocess
 import sys
 import tempfile
 import xml.etree.ElementTree as ET
+
+
+def _sigint_default():
+    # a shell that started us with `&` leaves SIGINT ignored, which the suite's KeyboardInterrupt tests inherit
+    signal.signal(signal.SIGINT, signal.SIG_DFL)
 
 
 def main():
@@ -30,7 +36,7 @@ def main():
         env = dict(os.environ, PYTHONPATH=os.path.join(root, "src"))
         cmd = ["/venv/bin/python", "-m", "pytest", "-q", "-p", "no:cacheprovider", "--timeout=900", "--continue-on-collection-errors",
                "-n", jobs, f"--junitxml={xml}", "-o", "junit_family=xunit1"] + args
-        p = subprocess.run(cmd, cwd=root, env=env, stdout=subprocess.PIPE, stderr=subprocess.STDOUT, text=True)
+        p = subprocess.run(cmd, cwd=root, env=env, stdout=subprocess.PIPE, stderr=subprocess.STDOUT, text=True, preexec_fn=_sigint_default)
         tail = "\n".join(p.stdout.splitlines()[-3:])
         if not os.path.exists(xml):
             print(p.stdout[-3000:])
@@ -60,7 +66,7 @@ def main():
               xml = os.path.join(tmp, "junit.xml")
               cmd = ["/venv/bin/python", "-m", "pytest", "-q", "-p", "no:cacheprovider", "--timeout=900", f"--junitxml={xml}", "-o",
                      "junit_family=xunit1"] + ids
-              subprocess.run(cmd, cwd=root, env=env, stdout=subprocess.PIPE, stderr=subprocess.STDOUT, text=True)
+              subprocess.run(cmd, cwd=root, env=env, stdout=subprocess.PIPE, stderr=subprocess.STDOUT, text=True, preexec_fn=_sigint_default)
               if os.path.exists(xml):
                   for tc in ET.parse(xml).getroot().iter("testcase"):
                       name = f"{tc.get('classname')}::{tc.get('name')}"
